@@ -12,14 +12,20 @@ EXPLANATION = ("T1 path-sensitive extraction of LdapResultExt::from: on every su
                "criticality false, absent -> (false, None); the known-OID table equals the RFC OIDs; T4 success()/non_error()/equal() "
                "are decided completely by evaluating them over the finite partition of result codes induced by the constants they "
                "compare with. Not decided: equality of arbitrary strings through String::from_utf8 / Vec moves (library semantics).")
-TRUSTED = ['String::from_utf8 / Vec move semantics', 'lber parse (C07 reader clauses)']
-UNDECIDED = ['byte-level equality of arbitrary strings (std semantics)', 'BER length-form independence (C07 reader clause)']
+TRUSTED = ['String::from_utf8 / Vec move semantics', 'lber TLV parser above the length reader (C07 B1 / B7)']
+UNDECIDED = ['byte-level equality of arbitrary strings (std semantics)']
 ASSUMPTIONS = []
 SHARED = [('C01', ('R3.controls', 'R3.protocol-op'), 'T6.driver-forwards-the-message'), ('C16', ('A2.no-paging-control', 'A2.last-page-strips-control'), 'T5.paged-result-controls'),
           # "the referral list handed to the caller equals what the server encoded": the one place a decoded referral list is edited
           # before the caller sees it is EntriesOnly::finish (Ldap::search), which may only append the URIs of the reference messages to
           # the list decoded from the SearchResultDone - on every path
-          ('C10', ('Q4.entries-only.finish-merges-refs',), 'T7.search-result-referrals-kept')]      # the one place a response control list is edited before the caller sees it: exactly the paging control may go
+          ('C10', ('Q4.entries-only.finish-merges-refs',), 'T7.search-result-referrals-kept'),
+          # "... equal the fields the server encoded, regardless of legal BER length-form variations in the encoding" (quantifier: "all
+          # definite-length BER encodings of them"): whatever form a peer chose for a length - short, long, long with leading zeros, split
+          # across reads anywhere inside the length field - the decoder must see the same length; that is what C07's B2 reader family decides
+          # about lber's length reader (form by the first octet, exactly n octets read, their big-endian value, a field that has not
+          # arrived completely is Incomplete and never an error or a shorter value, nothing refused for how it is written)
+          ('C07', ('B2.reader',), 'T8.any-legal-length-form-reads-the-same')]      # the one place a response control list is edited before the caller sees it: exactly the paging control may go
 
 RFC4511_RESULT_TAGS = {3: 'refs', 7: 'sasl_creds', 10: 'exop_name', 11: 'exop_val'}
 RFC_CONTROL_OIDS = {
